@@ -286,7 +286,7 @@ func genCluster(r *rand.Rand, p profile, u Universe) Cluster {
 			if len(c.Objs) > 0 && chance(r, 0.7) {
 				d = c.Objs[r.Intn(len(c.Objs))].ID // a live object: the edge matters for prune / destroy order
 			}
-			if d != i {
+			if d != i && u[d].Referable() {
 				o.Deps = []int{d}
 			}
 		}
@@ -307,7 +307,7 @@ func genCluster(r *rand.Rand, p profile, u Universe) Cluster {
 				default:
 					if len(o.Last.Deps) > 0 {
 						o.Last.Deps = nil
-					} else if d := r.Intn(len(u)); d != i && !o.Last.BadDep {
+					} else if d := r.Intn(len(u)); d != i && !o.Last.BadDep && u[d].Referable() {
 						o.Last.Deps = []int{d} // (a malformed annotation has no targets)
 					}
 				}
@@ -405,7 +405,7 @@ func genLocals(r *rand.Rand, p profile, u Universe, cur Cluster) []LObj {
 		n := 1 + r.Intn(2)
 		for j := 0; j < n; j++ {
 			d := r.Intn(len(u))
-			if d == l.ID {
+			if d == l.ID || !u[d].Referable() {
 				continue
 			}
 			// mostly acyclic and inside the object set
